@@ -248,6 +248,30 @@ def subscription_decode_failures_are_rejected(ctx, rule):
     return n
 
 
+def server_args_come_from_decoders(ctx, rule):
+    """every decoded argument a generated server closure passes to the trait method is, on every path, the result of a
+    parameter read (ParamsSequence::next / optional_next, or the by-name Params::parse): no path substitutes a constant
+    (`None`) for it without having read the params - a shortcut keyed on something else than the decoders' own verdict
+    (e.g. the params text being short) accepts texts the decoders would refuse with -32602."""
+    F, R = ctx.F, ctx.R
+    tr = ctx.tracer(follow_callers=False, follow_fields=False)
+    n = 0
+    for (crate, tname), t in sorted(collect(F, tr).items()):
+        for rust, si in sorted(t["server"].items()):
+            if si.get("target") is None:
+                continue
+            rust_m, sbody, scall = si["target"]
+            for j, a in enumerate(scall.args[1:]):
+                lv = tr.origins(sbody, a)
+                dec = [l for l in lv if l.kind == "call" and re.search(r"ParamsSequence::<'a>::(next|optional_next)$|Params::<'a>::(parse|one)$", l.detail.get("callee") or "")]
+                if not dec:
+                    continue   # not a decoded argument (pending sink, extensions, context)
+                n += 1
+                alien = [l for l in lv if l not in dec and not (l.kind == "call" and re.search(r"Try.*::branch$|from_residual$", l.detail.get("callee") or ""))]
+                R.check(not alien, rule, "%s::%s::%s:arg#%d-from-decoder-only" % (crate, tname, rust, j), "argument %d of %s is always a decoded value" % (j, rust), "argument %d of %s::%s can also be %s without any parameter read: a call whose params the decoders would refuse (-32602) is accepted and run with a substituted value" % (j, tname, rust, sorted({flow.leaf_str(l)[:50] for l in alien})[:3]), where(scall))
+    return n
+
+
 def decode_errors_propagate(ctx, rule):
     """in every generated server closure a failed read of a parameter (ParamsSequence::next / optional_next, Params::parse
     for by-name) ends the call with the error: the Result is matched (its Err arm leaves the closure / rejects the
@@ -489,6 +513,9 @@ def w_rules(ctx):
             R.check(got_al == want_al, "C17.W5", "%s::%s:declared-aliases" % (crate, tname), "aliases registered = aliases declared (%d)" % len(want_al), "declared aliases %s, registered %s" % (sorted(want_al - got_al), sorted(got_al - want_al)), "%s:%d" % (t["into_rpc"].file, t["into_rpc"].lo))
             want_decl = {m["rust"] for m in sp_t["methods"] + sp_t["subs"]}
             R.check(set(decls) == want_decl, "C17.W1", "%s::%s:all-declarations-present" % (crate, tname), "all %d declarations of %s were analysed" % (len(want_decl), tname), "declarations %s of %s are missing from the facts" % (sorted(want_decl - set(decls)), tname), None)
+    na = server_args_come_from_decoders(ctx, "C17.W3")
+    if ctx.config == "corpus":
+        R.floor("C17.W3.args", na, 60, "decoded arguments of generated server closures")
     nk = client_kind_matches_declaration(ctx, "C17.W4")
     if ctx.config == "corpus":
         R.floor("C17.W4.kind", nk, 30, "corpus declarations with parameters whose encoding kind was compared with the declaration")
